@@ -78,34 +78,55 @@ theorem xfer_consumed (reg : Registry) (size last cap alloc inpLen : Nat) (r1 : 
         · simp; omega
         · apply tail_consumed; omega
 
+/-- outcome is "input exhausted inside a frame". -/
+def isEof : Out → Bool
+  | .eof => true
+  | _ => false
+
 theorem tail_eof (reg : Registry) (size last alloc xferLen inpLen : Nat) (pipe : List UInt8) (r3 : Bytes)
-    (h : (unpackTail reg size last alloc xferLen inpLen pipe r3).out matches .eof) :
+    (h : isEof (unpackTail reg size last alloc xferLen inpLen pipe r3).out = true) :
     (unpackTail reg size last alloc xferLen inpLen pipe r3).consumed = inpLen := by
-  revert h
-  unfold unpackTail
+  unfold unpackTail at h ⊢
   split
-  · simp
-  · split
-    · simp
-    · split
-      · simp
-      · split <;> simp
+  · rename_i h1; simp [h1, isEof] at h
+  · rename_i h1
+    simp only [h1, if_false] at h
+    split
+    · rfl
+    · rename_i raw rest ht
+      simp only [ht] at h
+      split
+      · rename_i hu; simp [hu, isEof] at h
+      · rename_i data hu
+        simp only [hu] at h
+        split
+        · rename_i e hp; simp [hp, isEof] at h
+        · rename_i m hp; simp [hp, isEof] at h
 
 theorem xfer_eof (reg : Registry) (size last cap alloc inpLen : Nat) (r1 : Bytes)
     (hlen : inpLen = 4 + r1.length)
-    (h : (unpackXfer reg size last cap alloc inpLen r1).out matches .eof) :
+    (h : isEof (unpackXfer reg size last cap alloc inpLen r1).out = true) :
     (unpackXfer reg size last cap alloc inpLen r1).consumed = inpLen := by
-  revert h
-  unfold unpackXfer
-  split
-  · simp at hlen; simp [hlen]
-  · split
-    · simp
-    · split
-      · simp
-      · split
-        · simp
-        · exact tail_eof ..
+  cases r1 with
+  | nil =>
+    unfold unpackXfer
+    simp only [List.length_nil] at hlen
+    omega
+  | cons xl r2 =>
+    unfold unpackXfer at h ⊢
+    split
+    · rename_i h1; simp [h1, isEof] at h
+    · rename_i h1
+      simp only [h1, if_false] at h
+      split
+      · rfl
+      · rename_i ids r3 ht
+        simp only [ht] at h
+        split
+        · rename_i ha; simp [ha, isEof] at h
+        · rename_i pipe ha
+          simp only [ha] at h
+          exact tail_eof _ _ _ _ _ _ _ _ h
 
 /-! ### property theorems -/
 
@@ -157,21 +178,27 @@ theorem C06_consumed_le (reg : Registry) (limit cap0 : Nat) (inp : Bytes) :
     blocked on bytes it already has), and conversely every non-`eof` outcome is decided on the
     bytes already present. -/
 theorem C06_eof_consumes_all (reg : Registry) (limit cap0 : Nat) (inp : Bytes)
-    (h : (unpack reg limit cap0 inp).out matches .eof) :
+    (h : isEof (unpack reg limit cap0 inp).out = true) :
     (unpack reg limit cap0 inp).consumed = inp.length := by
-  revert h
-  unfold unpack
+  unfold unpack at h ⊢
   split
   · rename_i a b c d r1
-    dsimp only
+    dsimp only at h ⊢
     split
-    · simp
-    · split
-      · simp
-      · split
-        · simp
-        · intro h; apply xfer_eof _ _ _ _ _ _ _ _ h; simp; omega
-  · simp
+    · rename_i h1; simp [h1, isEof] at h
+    · rename_i h1
+      simp only [h1, if_false] at h
+      split
+      · rename_i h2; simp [h2, isEof] at h
+      · rename_i h2
+        simp only [h2, if_false] at h
+        split
+        · rename_i h3; simp [h3, isEof] at h
+        · rename_i h3
+          simp only [h3, if_false] at h
+          apply xfer_eof _ _ _ _ _ _ _ _ h
+          simp only [List.length_cons]; omega
+  · rfl
 
 /-! Non-vacuity: a concrete oversize announcement. -/
 example : Bytes.rdBe32 0x7f 0xff 0xff 0xff > 1024 := by decide
